@@ -70,8 +70,12 @@ func taskCoq(t Task) string {
 	if t.SubGuard != "" {
 		sub = "(Some " + cg.Str(t.SubGuard) + ")"
 	}
-	return fmt.Sprintf("{| t_name := %s; t_label := %s; t_method := %s; t_sources := %s; t_generates := %s; t_status := %s; t_prompt := %s; t_dir := %s; t_ncmds := %d; t_outputs := %s; t_subguard := %s |}",
-		cg.Str(t.Name), label, m, globsCoq(t.Sources), globsCoq(t.Generates), cg.StrList(t.Status), cg.Bool(t.Prompt), cg.Str(t.Dir), t.NCmds, cg.StrList(t.Outputs), sub)
+	dep := "None"
+	if t.DepSpec != "" {
+		dep = "(Some " + cg.Pair(cg.Str(t.DepSpec), cg.Str(t.DepDst)) + ")"
+	}
+	return fmt.Sprintf("{| t_name := %s; t_label := %s; t_method := %s; t_sources := %s; t_generates := %s; t_status := %s; t_prompt := %s; t_dir := %s; t_ncmds := %d; t_outputs := %s; t_dep := %s; t_subguard := %s |}",
+		cg.Str(t.Name), label, m, globsCoq(t.Sources), globsCoq(t.Generates), cg.StrList(t.Status), cg.Bool(t.Prompt), cg.Str(t.Dir), t.NCmds, cg.StrList(t.Outputs), dep, sub)
 }
 
 func projCoq(p []Task) string {
